@@ -359,6 +359,7 @@ package caldav
 //@   loop 1 invariant I1c: gcoCalls >= 0 && (gcoCalls > 0 ==> gcoReq == &dataReq) && (#i > 0 ==> gcoCalls > 0)
 //@   loop 1 invariant I1d: multiget.Prop != nil && decodedOk(multiget.Prop, "calendarDataReq") ==> dataRelC(dataReq, decoded(multiget.Prop, "calendarDataReq"))
 //@   loop 1 invariant I2: forall j :: 0 <= j && j < #i ==> answersHrefC(resps[j], h.Backend, ctx, multiget.Hrefs[j].Path, &dataReq)
+//@   loop 1 invariant I2d: forall j :: 0 <= j && j < #i ==> allocated(gcoErr(h.Backend, ctx, multiget.Hrefs[j].Path, &dataReq))
 
 //@ -- ---------------------------------------------------------------------------------------
 //@ -- C12: a request path is classified solely by its depth below the mount prefix.
@@ -418,30 +419,35 @@ package caldav
 //@   allocates
 //@   ensures F1: err == nil ==> fresh(resp) && oneHref(resp, calPrincipal(b.Backend, ctx))
 //@   ensures F2: err != nil ==> pfErr(err)
+//@   ensures F4: err == nil ==> formOK(propfind)
 //@   ensures F3: mutations == old(mutations)
 //@ func caldav.(*backend).propFindUserPrincipal(b, ctx, propfind) (resp, err)
 //@   requires R1: b != nil && b.Backend != nil && propfind != nil
 //@   allocates
 //@   ensures F1: err == nil ==> fresh(resp) && oneHref(resp, calPrincipal(b.Backend, ctx))
 //@   ensures F2: err != nil ==> pfErr(err)
+//@   ensures F4: err == nil ==> formOK(propfind)
 //@   ensures F3: mutations == old(mutations)
 //@ func caldav.(*backend).propFindHomeSet(b, ctx, propfind) (resp, err)
 //@   requires R1: b != nil && b.Backend != nil && propfind != nil
 //@   allocates
 //@   ensures F1: err == nil ==> fresh(resp) && oneHref(resp, calHomeSet(b.Backend, ctx))
 //@   ensures F2: err != nil ==> pfErr(err)
+//@   ensures F4: err == nil ==> formOK(propfind)
 //@   ensures F3: mutations == old(mutations)
 //@ func caldav.(*backend).propFindCalendar(b, ctx, propfind, cal) (resp, err)
 //@   requires R1: b != nil && b.Backend != nil && propfind != nil && cal != nil
 //@   allocates
 //@   ensures F1: err == nil ==> fresh(resp) && oneHref(resp, cal.Path)
 //@   ensures F2: err != nil ==> pfErr(err)
+//@   ensures F4: err == nil ==> formOK(propfind)
 //@   ensures F3: mutations == old(mutations)
 //@ func caldav.(*backend).propFindCalendarObject(b, ctx, propfind, co) (resp, err)
 //@   requires R1: b != nil && b.Backend != nil && propfind != nil && co != nil
 //@   allocates
 //@   ensures F1: err == nil ==> fresh(resp) && oneHref(resp, co.Path)
 //@   ensures F2: err != nil ==> pfErr(err)
+//@   ensures F4: err == nil ==> formOK(propfind)
 //@   ensures F3: mutations == old(mutations)
 //@ func caldav.(*backend).propFindAllCalendarObjects(b, ctx, propfind, cal) (resps, err)
 //@   requires R1: b != nil && b.Backend != nil && propfind != nil && cal != nil
@@ -449,7 +455,9 @@ package caldav
 //@   -- one response per object the backend lists for the calendar, in order, under the backend's path
 //@   ensures A1: err == nil ==> lcoPath == cal.Path && len(resps) == len(lcoRes) && (forall j :: 0 <= j && j < len(resps) ==> len(resps[j].Hrefs) == 1 && resps[j].Hrefs[0].Path == lcoRes[j].Path)
 //@   ensures A2: err != nil ==> pfErr(err)
+//@   ensures A4: err == nil && !formOK(propfind) ==> len(resps) == 0
 //@   ensures A3: mutations == old(mutations)
+//@   loop 1 invariant I0: #i > 0 ==> formOK(propfind)
 //@   loop 1 invariant I1: len(resps) == #i && (cap(resps) == 0 || fresh(resps)) && lcoRes == aos && lcoPath == cal.Path && mutations == old(mutations)
 //@   loop 1 invariant I2: forall j :: 0 <= j && j < #i ==> len(resps[j].Hrefs) == 1 && resps[j].Hrefs[0].Path == aos[j].Path
 //@ func caldav.(*backend).propFindAllCalendars(b, ctx, propfind, recurse) (resps, err)
@@ -459,7 +467,9 @@ package caldav
 //@   ensures C1: err == nil && !recurse ==> len(resps) == len(calList(b.Backend, ctx)) && (forall j :: 0 <= j && j < len(resps) ==> len(resps[j].Hrefs) == 1 && resps[j].Hrefs[0].Path == calList(b.Backend, ctx)[j].Path)
 //@   ensures C1r: err == nil && recurse ==> len(resps) >= len(calList(b.Backend, ctx))
 //@   ensures C2: err != nil ==> pfErr(err)
+//@   ensures C4: err == nil && !formOK(propfind) ==> len(resps) == 0
 //@   ensures C3: mutations == old(mutations)
+//@   loop 1 invariant I0: len(resps) > 0 ==> formOK(propfind)
 //@   loop 1 invariant I1: (cap(resps) == 0 || fresh(resps)) && mutations == old(mutations) && abs == calList(b.Backend, ctx) && (recurse ? len(resps) >= #i : len(resps) == #i)
 //@   loop 1 invariant I2: !recurse ==> (forall j :: 0 <= j && j < #i ==> len(resps[j].Hrefs) == 1 && resps[j].Hrefs[0].Path == abs[j].Path)
 //@ spec principalOf(b *backend, r *http.Request) string = calPrincipal(b.Backend, reqContext(r))
@@ -470,6 +480,8 @@ package caldav
 //@   ensures P0: err == nil ==> ms != nil
 //@   ensures P1: err != nil ==> ms == nil && pfErr(err)
 //@   ensures P2: mutations == old(mutations)
+//@   -- C11: a propfind naming none of the three forms yields no response (every response construction refuses it with 400)
+//@   ensures FORM: err == nil && !formOK(propfind) ==> len(ms.Responses) == 0
 //@   -- C12: a principal or home-set path other than the current user's exposes nothing
 //@   ensures G1: err == nil && lvlC(b, r) == 1 && r.URL.Path != principalOf(b, r) ==> len(ms.Responses) == 0
 //@   ensures G2: err == nil && lvlC(b, r) == 2 && r.URL.Path != homeSetOf(b, r) ==> len(ms.Responses) == 0
@@ -550,6 +562,10 @@ package caldav
 //@   ensures PF1: routedC(r) && r.Method == "PROPFIND" && wstatus(w) == 207 && servedErr == nil && lvlHC(h, r) == 1 && r.URL.Path != calPrincipal(h.Backend, reqContext(r)) ==> servedMS != nil && len(servedMS.Responses) == 0
 //@   ensures PF2: routedC(r) && r.Method == "PROPFIND" && wstatus(w) == 207 && servedErr == nil && lvlHC(h, r) == 2 && r.URL.Path != calHomeSet(h.Backend, reqContext(r)) ==> servedMS != nil && len(servedMS.Responses) == 0
 //@   ensures PF3: routedC(r) && r.Method == "PROPFIND" && lvlHC(h, r) == 3 ==> gcalCalls <= old(gcalCalls) + 1 && (gcalCalls == old(gcalCalls) + 1 ==> gcalPath == r.URL.Path)
+//@   -- C11: request form and Depth header (handlePropfind)
+//@   ensures PF4: routedC(r) && r.Method == "PROPFIND" && hdr(r, "Depth") != "" && hdr(r, "Depth") != "0" && hdr(r, "Depth") != "1" && hdr(r, "Depth") != "infinity" ==> wstatus(w) == 400 && mutations == old(mutations)
+//@   ensures PF5: routedC(r) && r.Method == "PROPFIND" && wstatus(w) == 207 && servedErr == nil && xmlReq(r) && !formOKv(decoded(r, "internal.PropFind")) ==> servedMS != nil && len(servedMS.Responses) == 0
+//@   ensures PF6: r.Method == "PROPFIND" && wstatus(w) == 207 && servedErr == nil ==> servedMS != nil
 //@   -- C13: a 5xx answer stems from the backend or the environment (or is the 501 of an unimplemented method), and a
 //@   -- request that changed something was either carried out or failed inside the backend
 //@   ensures S5: wstatus(w) >= 500 ==> (servedErr != nil && (beErr(servedErr) || fromEnv(servedErr) || httpCode(servedErr) == 501)) || (!routedC(r) && calPrincipalErr(h.Backend, reqContext(r)) != nil)
